@@ -103,7 +103,7 @@ fn stacks() -> String {
     };
     let err = file.try_clone().ok();
     let mut cmd = std::process::Command::new("timeout");
-    cmd.args(["-k", "5", "40", "gdb", "-p", &pid.to_string(), "-batch", "-ex", "set pagination off", "-ex", "thread apply all bt 14", "-ex", "detach", "-ex", "quit"])
+    cmd.args(["-k", "5", "40", "gdb", "-p", &pid.to_string(), "-batch", "-ex", "set pagination off", "-ex", "thread apply all bt 40", "-ex", "detach", "-ex", "quit"])
         .stdin(std::process::Stdio::null())
         .stdout(file);
     if let Some(e) = err {
@@ -114,8 +114,8 @@ fn stacks() -> String {
     let _ = std::fs::remove_file(&path);
     let keep: Vec<&str> = s.lines().filter(|l| l.starts_with("Thread ") || l.starts_with('#')).collect();
     let mut t = keep.join("\n");
-    if t.len() > 12_000 {
-        t.truncate(12_000);
+    if t.len() > 60_000 {
+        t.truncate(60_000);
     }
     if t.is_empty() {
         t = format!("no stacks (gdb status {status:?})");
@@ -164,6 +164,7 @@ pub fn supervised<T: Send + 'static>(label: &str, watchdog: Duration, f: impl Fn
     let mut last_sig = progress_signature();
     let mut last_change = Instant::now();
     let mut prev_stats: Option<BTreeMap<u64, ThreadStat>> = None;
+    let mut spin_checks = 0;
     loop {
         match rx.recv_timeout(Duration::from_millis(250)) {
             Ok(true) => {
@@ -189,7 +190,7 @@ pub fn supervised<T: Send + 'static>(label: &str, watchdog: Duration, f: impl Fn
         if stalled > Duration::from_secs(need) {
             // two samples at least one second apart: every thread asleep, nobody scheduled meanwhile
             let cur = thread_stats();
-            if let Some(prev) = prev_stats.take() {
+            if let Some(prev) = prev_stats.as_ref() {
                 let quiet = cur.iter().all(|(tid, st)| {
                     is_background_noise(&st.comm) || is_poller(*tid) || (matches!(st.state, 'S' | 'D') && prev.get(tid).map_or(false, |p| p.switches == st.switches && p.cpu == st.cpu))
                 }) && cur.len() == prev.len();
@@ -208,6 +209,39 @@ pub fn supervised<T: Send + 'static>(label: &str, watchdog: Duration, f: impl Fn
                     return Sup::Hang(diag);
                 }
             }
+            // Not every thread is asleep. The async wait-group of the `wg` crate busy-polls
+            // (`wake_by_ref(); Pending`), so a task waiting for a processor that will never answer
+            // keeps its thread running for ever. After a long stall, look at the stacks: if every
+            // thread that is not asleep is only spinning inside such a wait, nobody can make progress.
+            if stalled > Duration::from_secs(30) && spin_checks < 3 {
+                if let Some(prev) = prev_stats.as_ref() {
+                    spin_checks += 1;
+                    let busy: Vec<u64> = cur
+                        .iter()
+                        .filter(|(tid, st)| !(is_background_noise(&st.comm) || is_poller(**tid) || (matches!(st.state, 'S' | 'D') && prev.get(*tid).map_or(false, |p| p.switches == st.switches && p.cpu == st.cpu))))
+                        .map(|(tid, _)| *tid)
+                        .collect();
+                    let st = stacks();
+                    let blocks: Vec<&str> = st.split("Thread ").collect();
+                    let spinning_only = !busy.is_empty()
+                        && busy.iter().all(|tid| {
+                            // busy-polling a wait group, or idling in an executor / harness loop without any cache frame
+                            blocks.iter().any(|b| b.lines().next().map_or(false, |l| l.contains(&format!("LWP {tid})"))) && (b.contains("wg::future::") || b.contains("YieldNow") || !b.contains("stretto::")))
+                        });
+                    if spinning_only {
+                        let c = counters::snapshot();
+                        return Sup::Hang(json!({
+                            "kind": "no thread can make progress (the running threads only busy-poll a wait group)",
+                            "phase": PHASES[PHASE.load(Ordering::SeqCst) as usize % PHASES.len()],
+                            "stalled_s": stalled.as_secs_f64(),
+                            "counters": format!("{c:?}"),
+                            "threads": cur.iter().map(|(t, s)| format!("{t}:{}:{}", s.comm, s.state)).collect::<Vec<_>>(),
+                            "busy_polling_threads": busy,
+                            "stacks": st,
+                        }));
+                    }
+                }
+            }
             prev_stats = Some(cur);
             std::thread::sleep(Duration::from_millis(1000));
         }
@@ -220,6 +254,7 @@ pub fn supervised<T: Send + 'static>(label: &str, watchdog: Duration, f: impl Fn
                 "stalled_s": stalled.as_secs_f64(),
                 "counters": format!("{c:?}"),
                 "threads": thread_stats().iter().map(|(t, s)| format!("{t}:{}:{}", s.comm, s.state)).collect::<Vec<_>>(),
+                "stacks": stacks(),
             }));
         }
     }
